@@ -19,7 +19,7 @@ OBLIGATIONS = [
     'Cvise.C07.local_ints_special', 'Cvise.C07.local_ternary', 'Cvise.C07.local_peep', 'Cvise.C07.local_balanced',
     'Cvise.C07.balanced_recipes_shaped', 'Cvise.C07.lines_candidate', 'Cvise.C07.blank_candidate', 'Cvise.C07.includes_candidate',
     'Cvise.C07.readlines_lossless', 'Cvise.C07.single_line_offered', 'Cvise.C07.balanced_offers_all', 'Cvise.C07.balanced_prefix_free',
-    'Cvise.C07.balanced_deletion_sublist', 'Cvise.C07.balanced_deleting_args', 'Cvise.C07.balanced_cursors_wellformed', 'Cvise.C07.ternary_sublist', 'Cvise.C07.ternary_cursors_wellformed', 'Cvise.C07.comments_candidate',
+    'Cvise.C07.balanced_deletion_sublist', 'Cvise.C07.balanced_deleting_args', 'Cvise.C07.balanced_cursors_wellformed', 'Cvise.C07.ternary_sublist', 'Cvise.C07.ternary_cursors_wellformed', 'Cvise.C07.comments_candidate', 'Cvise.C07.line_markers_candidate',
     'Cvise.C07.ok_differs_ints', 'Cvise.C07.ok_differs_special', 'Cvise.C07.mods_cursor_wellformed', 'Cvise.C07.ints_special_passes', 'Cvise.C07.ints_special_deleting_shorter',
 ]
 
